@@ -1,12 +1,12 @@
 (* C08 — no input makes gopatch crash or hang.   PARTIAL: see the end of this file. *)
-From GP Require Import Augment AugmentFacts.
+From GP Require Import Augment AugmentFacts AugmentShape Meta MetaFacts.
 Local Open Scope nat_scope.
 
 (* The hand-written token scanner of pgo/augment (find.go: pkg, imports, topLevelDecl,
    funcDecl, function, fieldList, process and the main loop) stops on every token list:
    the transcription with explicit recursion fuel never runs out of 3 * tokens + 6. *)
 Theorem C08_scanner_terminates : forall eoff eline toks,
-  exists augs, find eoff eline toks = Some augs.
+  exists augs, Augment.find eoff eline toks = Some augs.
 Proof. exact find_terminates. Qed.
 Print Assumptions C08_scanner_terminates.
 
@@ -25,18 +25,58 @@ Theorem C08_augment_never_diverges : forall src toks eline errs,
   augment src toks eline errs <> AugDiverges.
 Proof.
   intros src toks eline errs. unfold augment.
-  destruct (find_terminates (length src) eline toks) as [augs E]. rewrite E.
+  destruct (find_terminates (List.length src) eline toks) as [augs E]. rewrite E.
   destruct errs; [discriminate|]. destruct (rewrite src augs) as [[[o a] j]|]; discriminate.
 Qed.
 Print Assumptions C08_augment_never_diverges.
+
+(* rewrite.go slices the source at the augmentations' offsets.  The augmentations the scanner
+   records have the shape that needs: each within the source, pairwise disjoint, the fake package
+   clause and the fake function header before every elision, and of two that start at the same
+   offset the one found first empty.  On such lists no slice is out of range PROVIDED the sort
+   keeps equal offsets in order: the model sorts stably (as /repo does since 89c9120; with
+   sort.Slice the three entries at offset 0 could be swapped once there were more than 12 and
+   loading the patch panicked - found while trying to prove this).
+   Hypothesis [wf]: the token stream is ordered by offset, a "..." token is three bytes wide,
+   nothing lies beyond the end of the source - a contract of go/scanner, evaluated (wfb) on every
+   token stream of checks/c08.py. *)
+Theorem C08_find_output_shape : forall eoff eline toks augs,
+  wf eoff toks -> Augment.find eoff eline toks = Some augs -> augs_okb eoff augs = true.
+Proof. exact find_output_shape. Qed.
+Print Assumptions C08_find_output_shape.
+
+Theorem C08_rewrite_in_range : forall src augs,
+  augs_okb (List.length src) augs = true -> exists r, rewrite src augs = Some r.
+Proof. exact rewrite_no_panic. Qed.
+Print Assumptions C08_rewrite_in_range.
+
+(* augment.Augment, the scanner and the rewrite together: neither loops nor slices out of range *)
+Theorem C08_augment_total : forall src toks eline errs,
+  wf (List.length src) toks ->
+  augment src toks eline errs <> AugDiverges /\ augment src toks eline errs <> AugPanics.
+Proof. exact augment_total. Qed.
+Print Assumptions C08_augment_total.
+
+(* the metavariable parser: with any fuel above the number of tokens the result is the same,
+   i.e. running out of fuel (which would end the parse silently) never happens *)
+Theorem C08_meta_parser_fuel : forall eof f1 f2 ts,
+  (List.length ts < f1)%nat -> (List.length ts < f2)%nat -> parse_meta f1 ts eof = parse_meta f2 ts eof.
+Proof. exact parse_meta_fuel. Qed.
+Print Assumptions C08_meta_parser_fuel.
 
 (* non-vacuity: the inputs of the former hang (fixed in /repo, 9f4c829): "func foo(" and "func (" *)
 Example C08_ex_unfinished_header :
   let toks := [ {| a_kind := AK_FUNC; a_off := 0; a_line := 1 |}; {| a_kind := AK_IDENT; a_off := 5; a_line := 1 |};
                 {| a_kind := AK_LPAREN; a_off := 8; a_line := 1 |} ] in
-  find 9 1 toks = Some [FakePackage 0] /\
-  find 6 1 [ {| a_kind := AK_FUNC; a_off := 0; a_line := 1 |}; {| a_kind := AK_LPAREN; a_off := 5; a_line := 1 |} ] = Some [FakePackage 0].
+  Augment.find 9 1 toks = Some [FakePackage 0] /\
+  Augment.find 6 1 [ {| a_kind := AK_FUNC; a_off := 0; a_line := 1 |}; {| a_kind := AK_LPAREN; a_off := 5; a_line := 1 |} ] = Some [FakePackage 0].
 Proof. vm_compute. split; reflexivity. Qed.
+
+Example C08_ex_leading_dots :      (* "..." alone: three augmentations at offset 0, in this order *)
+  Augment.find 3 1 [ {| a_kind := AK_ELLIPSIS; a_off := 0; a_line := 1 |} ] = Some [FakePackage 0; FakeFunc 0 true; ADots 0 3 false] /\
+  augs_okb 3 [FakePackage 0; FakeFunc 0 true; ADots 0 3 false] = true /\
+  augs_okb 3 [ADots 0 3 false; FakeFunc 0 true] = false.
+Proof. vm_compute. repeat split; reflexivity. Qed.
 
 (* What is NOT proved here (checked by running the code only, checks/c08.py parts B and C):
    go/scanner, go/parser, go/printer and imports.Process never crash; the reflection-based
